@@ -29,13 +29,47 @@ def guard_lt(prog, b, idx, call, len_field_pred, field_name_pred=None):
         if not (big.kind == 'call' and big.callee_name() == 'len' and len_field_pred(big)):
             # a crate helper that returns the length of a field of its receiver (`fn len(&self) -> usize { self.buffer.len() }`)
             if not (big.kind == 'call' and helper_len_field(prog, big) is not None and field_name_pred is not None and field_name_pred(helper_len_field(prog, big))):
-                continue
+                # a length remembered in a field of a plain record (an iterator that keeps `chunks.len()`), of a vector whose
+                # length never changes after construction
+                if not (big.kind == 'load' and frozen_len_field(prog, big, len_field_pred)):
+                    continue
         t = b.mir['blocks'][s]['term']
         for succ in cfg.succ[s]:
             tr = edge_truth(t, succ)
             if tr and cfg.pred[succ] == [s] and cfg.dominates(succ, call.point[0]):
                 return big, s
     return None, None
+
+
+def frozen_len_field(prog, v, len_field_pred):
+    """v reads a field of a plain record whose every write anywhere is `X.len()` with X accepted by len_field_pred, and no
+    function of the crate changes the length of a vector field of that name"""
+    from origins import record_writes
+    owner = v.extra.get('last_owner')
+    if not owner or not v.fields():
+        return False
+    writes = record_writes(prog).get((owner, v.fields()[-1]))
+    if not writes:
+        return False
+    names = set()
+    for (wfn, val) in writes:
+        sv = strip(val)
+        if not (sv is not None and sv.kind == 'call' and sv.callee_name() == 'len' and sv.args and len_field_pred(sv)):
+            return False
+        base = strip(sv.args[0])
+        while base.kind == 'call' and base.callee_name() in ('deref', 'deref_mut'):
+            base = strip(base.args[0])
+        names.add(base.fields()[-1])
+    grow_shrink = ('push', 'pop', 'insert', 'remove', 'swap_remove', 'truncate', 'clear', 'retain', 'resize', 'resize_with', 'extend', 'drain', 'split_off', 'append', 'dedup', 'set_len')
+    for g in prog.fns.values():
+        if not g.info.get('mir'):
+            continue
+        for m in g.body.calls:
+            if m.callee_name() in grow_shrink and m.args and prog.resolve(m) is None:
+                mb = strip(m.args[0])
+                if mb is not None and mb.kind in ('ref', 'load') and mb.fields()[-1:] and mb.fields()[-1] in names:
+                    return False
+    return True
 
 
 def helper_len_field(prog, call):
